@@ -12,6 +12,7 @@ import Pumpkin.Spec.Basic
 import Pumpkin.Check.Oracle
 import Pumpkin.Model.ImplicitReason
 import Pumpkin.Model.PropagationCompile
+import Pumpkin.Model.AssignmentsHist
 
 namespace Pumpkin.C17
 
@@ -115,5 +116,28 @@ example : (Pg.PropInst.linLe [⟨1, 0, 0⟩, ⟨1, 0, 1⟩] 3).pass [[2, 3], [0,
 example : (Pg.PropInst.div ⟨1, 0, 0⟩ ⟨1, 0, 1⟩ ⟨1, 0, 2⟩).pass [[7, 8, 9], [2, 3], [0, 1, 2, 3, 4, 5]]
     = some [[7, 8, 9], [2, 3], [2, 3, 4]] := by decide
 example : (Pg.PropInst.times ⟨1, 0, 0⟩ ⟨1, 0, 1⟩ ⟨1, 0, 2⟩).pass [[2], [3], [5]] = none := by decide
+
+/-! ### "the stated facts hold in the state in which the reason is given"
+
+Lazy explanations and conflict analysis ask the domain store for the bounds a variable had at an
+earlier trail position. In the model of the store (`Model/Assignments.lean`, tied to the real
+`Assignments` by the `asg` correspondence, which compares these queries at every position) the answer is
+the bound the variable really had at that moment, in every reachable state: -/
+
+theorem store_historic_bounds (ops : List Asg.St.Op) (x p : Nat)
+    (hp : p < (Asg.St.run Asg.St.empty ops).trail.length)
+    (hx : x < (Asg.build (Asg.upTo (Asg.St.run Asg.St.empty ops).trail p)).length) :
+    ((Asg.St.run Asg.St.empty ops).dom x).lbAt p =
+        ((Asg.build (Asg.upTo (Asg.St.run Asg.St.empty ops).trail p)).getD x default).lb ∧
+    ((Asg.St.run Asg.St.empty ops).dom x).ubAt p =
+        ((Asg.build (Asg.upTo (Asg.St.run Asg.St.empty ops).trail p)).getD x default).ub := by
+  have h := Asg.inv_run ops _ Asg.inv_empty
+  rw [Asg.St.dom, h.doms]
+  exact Asg.boundsAt_spec _ h.wf x p hp hx
+
+-- non-vacuous: after [x >= 2] (position 4) and [x >= 4] (position 5) the bound at position 4 is 2
+example :
+    let s := Asg.St.run Asg.St.empty [.grow 1 1, .grow 0 9, .newLevel, .post (.ge 1 2), .post (.ge 1 4)]
+    (s.dom 1).lbAt 4 = 2 ∧ (s.dom 1).lbAt 5 = 4 ∧ (s.dom 1).lbAt 3 = 0 := by decide
 
 end Pumpkin.C17
